@@ -147,18 +147,43 @@ fn emit_routes(out: &mut Out, inp: &Input, mask: &Option<Vec<bool>>) {
 
 pub fn run_partial(out: &mut Out, rng: &mut Rng, thorough: bool) {
     let reps = if thorough { 5 } else { 1 };
-    let fams = ["uniform", "lattice", "on_boundary", "coplanar", "pair", "collinear"];
-    for _ in 0..reps {
+    let fams = ["uniform", "lattice", "on_boundary", "coplanar", "pair", "collinear", "blob_isolated", "void_shell"];
+    for rep in 0..reps {
         for fam in fams {
             for dim in [3usize, 2, 1] {
                 for periodic in [false, true] {
                     // small inputs: all masks exhaustively; larger: random masks
                     let small = rng.bool();
-                    let n = if small { 1 + rng.below(if thorough { 6 } else { 4 }) as usize } else { 6 + rng.below(if thorough { 200 } else { 30 }) as usize };
+                    let big = fam == "blob_isolated" || fam == "void_shell";
+                    if big && !thorough && (periodic && dim == 1) {
+                        continue;
+                    }
+                    let n = if fam == "blob_isolated" {
+                        // beyond every plausible size threshold (1024) in at least one record per dimensionality
+                        if periodic { 300 + rng.below(200) as usize } else { 1040 + rng.below(300) as usize }
+                    } else if fam == "void_shell" {
+                        if dim == 3 { 150 + rng.below(200) as usize } else { 40 + rng.below(100) as usize }
+                    } else if small {
+                        1 + rng.below(if thorough { 6 } else { 4 }) as usize
+                    } else {
+                        6 + rng.below(if thorough { 200 } else { 30 }) as usize
+                    };
+                    let _ = rep;
                     let inp = gen::make(rng, fam, dim, periodic, n);
                     let n = inp.gens.len();
                     let masks: Vec<Vec<bool>> = if n <= 6 {
                         (0..(1u32 << n)).map(|b| (0..n).map(|i| (b >> i) & 1 == 1).collect()).collect()
+                    } else if fam == "blob_isolated" {
+                        (0..2).map(|_| gen::make_mask_local(rng, n)).collect()
+                    } else if fam == "void_shell" {
+                        // the central generator (index 0) selected with few others / alone / unselected
+                        let mut a = vec![false; n];
+                        a[0] = true;
+                        let mut b: Vec<bool> = (0..n).map(|_| rng.chance(0.1)).collect();
+                        b[0] = true;
+                        let mut c: Vec<bool> = (0..n).map(|_| rng.bool()).collect();
+                        c[0] = false;
+                        vec![a, b, c]
                     } else {
                         (0..(if thorough { 6 } else { 3 })).map(|_| gen::make_mask(rng, n)).collect()
                     };
